@@ -52,6 +52,8 @@ class Ctx:
         self.forks = 0
         self._divs = {}
         self.purify_div = False
+        self.decided = {}
+        self._keep = []
         self.subst = []
         self.nl_mode = False
         self.fresh_timeout_ms = 30000
@@ -102,6 +104,15 @@ class Ctx:
             return True
         if z3.is_false(cond):
             return False
+        hit = self.decided.get(cond.get_id())
+        if hit is not None:
+            return hit  # the same literal was already decided on this path
+        r = self._branch(cond)
+        self.decided[cond.get_id()] = r
+        self._keep.append(cond)
+        return r
+
+    def _branch(self, cond):
         if self.pos < len(self.prefix):
             taken = self.prefix[self.pos]
             other = None  # already handled by the run that scheduled us
